@@ -226,7 +226,7 @@ def expected(pool, objs, d):
         eta = (cosA - f / tanB) / (cosA + f * tanB)
         ratio = es['starts'] / em['z']
         worm = s
-    if abs(eta) < 1e-12 or abs(eta - 1) < 1e-12:
+    if (abs(eta) < 1e-12 or abs(eta - 1) < 1e-12) and f != 0:      # (without friction the efficiency is exactly 1)
         return ('skip', 'efficiency within rounding of the range limit')
     if not (0 <= eta <= 1):
         return ('err', 'ValueError')
